@@ -1,39 +1,68 @@
 # run parameters and manifest texts of the C16 check (read by ../props.py)
 _STACK = dict(engine='stack', test='TestC16Stack', quick=dict(checks=160, shards=8, timeout=900), thorough=dict(checks=1500, shards=14, timeout=3000))
 _ENV = dict(engine='env', test='TestC16Env', quick={'checks': 5000, 'shards': 8, 'timeout': 600}, thorough={'checks': 100000, 'shards': 14, 'timeout': 2400})
-PROP = {'engine': 'env', 'parts': [_ENV, _STACK],
+_SUP = dict(engine='sup', test='TestC16Sup', quick=dict(checks=400, shards=4, timeout=600), thorough=dict(checks=8000, shards=8, timeout=1200))
+PROP = {'engine': 'env',
+ 'parts': [{'engine': 'env',
+            'test': 'TestC16Env',
+            'quick': {'checks': 5000, 'shards': 8, 'timeout': 600},
+            'thorough': {'checks': 100000, 'shards': 14, 'timeout': 2400}},
+           {'engine': 'stack',
+            'test': 'TestC16Stack',
+            'quick': {'checks': 160, 'shards': 8, 'timeout': 900},
+            'thorough': {'checks': 1500, 'shards': 14, 'timeout': 3000}},
+           {'engine': 'sup',
+            'test': 'TestC16Sup',
+            'quick': {'checks': 400, 'shards': 4, 'timeout': 600},
+            'thorough': {'checks': 8000, 'shards': 8, 'timeout': 1200}}],
  'test': 'TestC16Env',
  'level': 'exploration',
  'quick': {'checks': 5000, 'shards': 8, 'timeout': 600},
  'thorough': {'checks': 100000, 'shards': 14, 'timeout': 2400},
- # several engines: parts=[dict(engine='env', test='TestC16Env', quick=..., thorough=...), dict(engine='stack', test=..., ...)]
- 'health': {'mode:caching': 0.15, 'source:osenv': 0.10, 'collide:platform': 0.20, 'collide:runtime': 0.20, 'collide:credentials': 0.10,
-            'collide:platform-unreserved': 0.03, 'collide:internal': 0.20, 'collide:agent-excluded': 0.10, "value:'='": 0.30,
-            'value:newline': 0.05, 'value:empty': 0.05, 'op:sethandler': 0.20, 'init:no-handler': 0.10},
- 'rule': 'Part 1, environment builder (lambda/rapidcore/env, exported API only): rapid draws the process environment seen by NewEnvironment (<=12 variables) and '
-         'the customer map (<=12 variables, or the emulator front end\'s shape: defaults + the whole process environment + extras), names taken from '
-         'every reserved class of constants.go (platform, runtime, credentials, credentials URI/token, unreserved platform default, internal _LAMBDA_*, '
-         'X-Ray exclusions), near-misses of them, random identifiers and names no shell produces; values empty, with \'=\', newlines, arbitrary UTF-8; '
-         'handler / function name / version / each credential empty or not; Runtime API address host:port; plain or init-caching credentials; optional '
-         'SetHandler override, CLI-option variables, SetExecutionEnv/TaskRoot/RuntimeDir; the calls in the front end\'s order or shuffled; customer map '
-         'handed over directly or obtained with CustomerEnvironmentVariables() from the process environment. Oracle: layered-map specification '
-         'written from the statement (runtime view: customer < unreserved default < credentials < runtime-reserved < platform-reserved, resolved per '
-         'name from the highest layer down; agent view: customer < credentials < platform without \'_\' names and X-Ray exclusions), both views compared '
-         'name by name with byte equality; directly read statements (Runtime API address equal in both views and equal to the one stored; credentials, '
-         'handler, function name, version equal to the init parameters; URI + token and no static key material in init-caching mode; no \'_\' name or '
-         'excluded name in the agent view); SplitEnvironmentVariable splits every K=V at the first \'=\'. Fixed cases: every reserved name x mode x source. '
-         'Non-trivial: >=1 supplied name colliding with a reserved class and >=1 supplied value containing \'=\'. Distinct = distinct case hash. '
-         'Part 2, full stack: the emulator process is started with a generated container environment (0-10 variables, half of them reserved names incl. a hostile '
-         'AWS_LAMBDA_RUNTIME_API, values with \'=\', newlines, UTF-8, empty), 0-2 extensions, optional command-line handler; the first invocation runs the real '
-         'InitHandler. Oracle on the Env maps of the recorded Exec requests: every container variable arrives unchanged at the runtime (and at extensions '
-         'unless it starts with \'_\' or is an X-Ray exclusion, which must be absent); AWS_LAMBDA_RUNTIME_API is the address the API server listens on, for '
-         'everybody; function name/version/credentials/handler as the front end derives them; GET /ping at that address answers pong; two invocations succeed.',
- 'assumptions': ['an empty handler / function name / version in the init request means "not given" (the layer keeps what the process environment said)',
+ 'health': {'mode:caching': 0.15,
+            'source:osenv': 0.1,
+            'collide:platform': 0.2,
+            'collide:runtime': 0.2,
+            'collide:credentials': 0.1,
+            'collide:platform-unreserved': 0.03,
+            'collide:internal': 0.2,
+            'collide:agent-excluded': 0.1,
+            "value:'='": 0.3,
+            'value:newline': 0.05,
+            'value:empty': 0.05,
+            'op:sethandler': 0.2,
+            'init:no-handler': 0.1},
+ 'rule': 'Part 1, environment builder (lambda/rapidcore/env, exported API only): rapid draws the process environment seen by NewEnvironment (<=12 '
+         "variables) and the customer map (<=12 variables, or the emulator front end's shape: defaults + the whole process environment + extras), "
+         'names taken from every reserved class of constants.go (platform, runtime, credentials, credentials URI/token, unreserved platform default, '
+         "internal _LAMBDA_*, X-Ray exclusions), near-misses of them, random identifiers and names no shell produces; values empty, with '=', "
+         'newlines, arbitrary UTF-8; handler / function name / version / each credential empty or not; Runtime API address host:port; plain or '
+         'init-caching credentials; optional SetHandler override, CLI-option variables, SetExecutionEnv/TaskRoot/RuntimeDir; the calls in the front '
+         "end's order or shuffled; customer map handed over directly or obtained with CustomerEnvironmentVariables() from the process environment. "
+         'Oracle: layered-map specification written from the statement (runtime view: customer < unreserved default < credentials < runtime-reserved '
+         "< platform-reserved, resolved per name from the highest layer down; agent view: customer < credentials < platform without '_' names and "
+         'X-Ray exclusions), both views compared name by name with byte equality; directly read statements (Runtime API address equal in both views '
+         'and equal to the one stored; credentials, handler, function name, version equal to the init parameters; URI + token and no static key '
+         "material in init-caching mode; no '_' name or excluded name in the agent view); SplitEnvironmentVariable splits every K=V at the first "
+         "'='. Fixed cases: every reserved name x mode x source. Non-trivial: >=1 supplied name colliding with a reserved class and >=1 supplied "
+         "value containing '='. Distinct = distinct case hash. Part 2, full stack: the emulator process is started with a generated container "
+         "environment (0-10 variables, half of them reserved names incl. a hostile AWS_LAMBDA_RUNTIME_API, values with '=', newlines, UTF-8, empty), "
+         '0-2 extensions, optional command-line handler; the first invocation runs the real InitHandler. Oracle on the Env maps of the recorded Exec '
+         "requests: every container variable arrives unchanged at the runtime (and at extensions unless it starts with '_' or is an X-Ray exclusion, "
+         'which must be absent); AWS_LAMBDA_RUNTIME_API is the address the API server listens on, for everybody; function '
+         'name/version/credentials/handler as the front end derives them; GET /ping at that address answers pong; two invocations succeed. Part 3, '
+         'real processes: the real LocalSupervisor starts /usr/bin/env with a generated ExecRequest.Env (0-8 variables, reserved and excluded names, '
+         "values with '=') while the test process's own environment holds 0-6 other variables (names the filters exclude among them), stdout through "
+         "a pipe or a file. Oracle: the started process sees exactly the requested variables - nothing of the emulator's own environment.",
+ 'assumptions': ['an empty handler / function name / version in the init request means "not given" (the layer keeps what the process environment '
+                 'said)',
                  'platform-side setters (SetHandler, init handler, SetExecutionEnv ...) overwrite each other in call order',
-                 'with CustomerEnvironmentVariables() the customer\'s variables are the process environment minus the reserved classes and minus '
-                 '\'_\' names other than the four exempted in customer.go',
+                 "with CustomerEnvironmentVariables() the customer's variables are the process environment minus the reserved classes and minus '_' "
+                 'names other than the four exempted in customer.go',
                  'the process environment is replaced per case with os.Clearenv/os.Setenv and restored afterwards; cases run sequentially'],
- 'level_text': 'random search over customer maps, process environments, init parameters, credential modes and call orders of the environment builder, '
-               'compared with an independently written layered-map specification; every reserved name is also enumerated as a fixed case. Exploration only.',
- 'level_note': 'port 0 (dynamic) for the Runtime API is outside the domain (the advertised address is computed before Listen); names or values containing NUL and values that are not valid UTF-8 are not generated',
+ 'level_text': 'random search over customer maps, process environments, init parameters, credential modes and call orders of the environment '
+               'builder, compared with an independently written layered-map specification; every reserved name is also enumerated as a fixed case. '
+               'Exploration only.',
+ 'level_note': 'port 0 (dynamic) for the Runtime API is outside the domain (the advertised address is computed before Listen); names or values '
+               'containing NUL and values that are not valid UTF-8 are not generated',
  'technique': 'property-based testing (rapid): generated inputs, layered-map reference specification, enumeration of the reserved names'}
